@@ -182,6 +182,12 @@ Section Trees.
       (fun k v '(c, acc) => match c with O => ((O, acc), false) | S c' => ((c', (k, v) :: acc), true) end)
       o n (j, [])))).
 
+  (** how many times that visitor is called: [j] accepted visits and the one that says stop *)
+  Definition trav_stop_calls (o : order) (j : nat) (n : tree) : nat :=
+    snd (fst (traverse (nat * nat)
+      (fun k v '(c, calls) => match c with O => ((O, S calls), false) | S c' => ((c', S calls), true) end)
+      o n (j, O))).
+
   Definition any_match (p : K -> V -> bool) (n : tree) : bool :=
     negb (snd (traverse unit (fun k v s => (s, negb (p k v))) VLR n tt)).
   Definition all_match (p : K -> V -> bool) (n : tree) : bool :=
@@ -631,7 +637,8 @@ Section Trees.
 
   Inductive out :=
   | OUnit | OBool (b : bool) | OInt (z : Z) | OVal (o : option V) | OKV (o : option (K * V))
-  | OList (l : list (K * V)) | OLists (l1 l2 : list (K * V)).
+  | OList (l : list (K * V)) | OLists (l1 l2 : list (K * V))
+  | OListN (l : list (K * V)) (calls : nat).     (* visited pairs and number of visitor calls *)
 
   Definition inorder (n : tree) : list (K * V) := trav_list Ascending n.
 
@@ -676,7 +683,7 @@ Section Trees.
         do ta <- a ;; do tb <- b ;; Ok (OLists (inorder ta) (inorder tb))
     | QHeight => Ok (OInt (Height i n))
     | QFirstMatch p => Ok (OKV (first_match p n))
-    | QTraverseStop o j => Ok (OList (trav_stop o j n))
+    | QTraverseStop o j => Ok (OListN (trav_stop o j n) (trav_stop_calls o j n))
     end.
 
   Definition step (i : impl) (n : tree) (o : op) : res (tree * out) :=
@@ -805,6 +812,7 @@ Arguments OVal {K V} o.
 Arguments OKV {K V} o.
 Arguments OList {K V} l.
 Arguments OLists {K V} l1 l2.
+Arguments OListN {K V} l calls.
 Arguments M {K V} m.
 Arguments Q {K V} q.
 
@@ -851,6 +859,7 @@ Arguments range_go {K V}.
 Arguments traverse {K V}.
 Arguments trav_list {K V}.
 Arguments trav_stop {K V}.
+Arguments trav_stop_calls {K V}.
 Arguments any_match {K V}.
 Arguments all_match {K V}.
 Arguments first_match {K V}.
